@@ -14,12 +14,14 @@ var c17Groups = [][]string{
 	{"MOV AX,1"}, {"MOV EAX,1"}, {"ADD CX,0x100", "SUB ECX,2"}, {"PUSH AX", "PUSH EAX"}, {"MOV AX,[BX+2]"}, {"MOV EAX,[EBX+4]"},
 	{"PUSH 0x100"}, {"IN EAX,DX", "OUT DX,AX"}, {"MOV WORD [0x0ff4],320"}, {"XOR EBX,EBX", "DB 0x90", "CMP AL,1"},
 	{"MOV DS,AX", "MOV AX,1", "MOV EBX,2"}, {"MOV ES,CX", "MOV AX,DS", "ADD ECX,0x100", "PUSH EAX"}, {"SHL EAX,2", "NOT CX", "OR EAX,1", "SUB ECX,4", "AND AX,0x00ff"},
+	{"MOV CR0,EAX", "MOV EAX,CR0"}, {"IMUL ECX,4", "IMUL CX,0x100"}, {"PUSH FS", "POP GS", "PUSH 0x80", "PUSH -129"},
+	{"MOV AX,[BX+SI]", "MOV EAX,[BP]", "MOV CX,[EAX+EAX]"}, {"CMP BYTE [0x0ff0],0", "MOV [ESI+4],AX", "ADD EAX,[EBP+ECX*4]"},
 }
 
 var c17Neutral = []string{"", "; comment", `[INSTRSET "i486p"]`, "X EQU 5", "EXTERN ext1", "lbl:", "DB 0x11"}
 
-// size-estimate defects that are C03's known findings (PUSH imm16: est 2, emit 3/5), per "mode|group"
-var c17KnownSizeDrift = map[string]int64{"16|6": -1, "32|6": -2}
+// size-estimate defects that are C03's known findings, per "mode|group" (none left: PUSH imm16 was repaired by 1525c62)
+var c17KnownSizeDrift = map[string]int64{}
 
 func c17Body(stmts []string) string {
 	var sb strings.Builder
